@@ -28,7 +28,7 @@ def matches_known(pid, gres, fail, known):
 
 def git_head(path):
     try:
-        return subprocess.check_output(['git', '-C', path, 'rev-parse', '--short', 'HEAD']).decode().strip()
+        return subprocess.check_output(['git', '-C', path, 'rev-parse', '--short', 'HEAD'], stderr=subprocess.DEVNULL).decode().strip()
     except Exception:
         return '?'
 
